@@ -171,3 +171,6 @@ func VPH_keyPrefix() {
 	}
 	vp_Reach("end")
 }
+
+// VP_KeyMatch exposes the real key/prefix matcher to harnesses of other packages.
+func VP_KeyMatch(key, prefix string) (bool, string) { return configKeyMatchesPrefix(key, prefix) }
